@@ -8,6 +8,7 @@ import (
 	"net/http"
 	"net/http/httptest"
 	"net/url"
+	"os"
 	"strings"
 	"sync"
 
@@ -31,12 +32,14 @@ type opd struct {
 	coq   string
 	kind  string // snapshot kind of the target instance: prov | legacy | rp | hc | ""
 	inst  int
-	class string            // tag: operation class
-	sub   string            // tag: variant
-	needs func(w *world)    // preparation outside the observation window (tokens, flows)
-	run   func(w *world)    // the operation
+	class string               // tag: operation class
+	sub   string               // tag: variant
+	needs func(w *world)       // preparation outside the observation window (tokens, flows)
+	run   func(w *world)       // the operation
 	probe func(w *world) []int // observable result when used as a probe
 }
+
+var debug = os.Getenv("C20_DEBUG") != ""
 
 var idw *world // scratch world: value ids are the same in every world
 
@@ -248,7 +251,7 @@ func provReq(i, stor, q int) opd {
 	}
 	o.run = func(w *world) {
 		if r := do(w); r != nil && r.Status < 400 {
-			okInc("ProvReq-"+o.sub)
+			okInc("ProvReq-" + o.sub)
 		}
 	}
 	if q == 0 {
@@ -414,6 +417,8 @@ func rpCall(i, c, k int) opd {
 		}
 		if err == nil {
 			okInc("RPCall-" + rpcallNames[k])
+		} else if debug {
+			fmt.Fprintln(os.Stderr, "c20 debug:", o.coq, err)
 		}
 	}
 	o.probe = clientProbe(func(w *world) { o.run(w) })
